@@ -10,6 +10,7 @@ import Driver.C07
 import Driver.C18
 import Driver.Sched
 import Driver.C11
+import Driver.Fixed
 
 open Driver
 
@@ -58,6 +59,9 @@ def main (args : List String) : IO UInt32 := do
     return 0
   | ["c11subst"] =>
     forLines stdin fun l => stdout.putStrLn (c11SubstLine (fields l))
+    return 0
+  | ["c16fixed"] =>
+    forLines stdin fun l => stdout.putStrLn (c16FixedLine (fields l))
     return 0
   | ["c13"] =>
     forLines stdin fun l => stdout.putStrLn (c13Line (fields l))
